@@ -30,6 +30,35 @@ def parts_for(pid, tier, only):
         P.append(e1_part(pid, tier, f.c18_codecs(tier), ["ops_c18"],
                          ["the exact calls base_ext.rs makes: base32::encode/decode (RFC4648 padded, Crockford), base64 STANDARD, z85; input bytes symbolic, length literal"],
                          "lengths 0..3 (quick) / 0..8 (thorough) bytes", ["base32::encode", "base32::decode", "base64::Engine::encode/decode (STANDARD)", "z85::encode", "z85::decode"], only, harness_timeout=900))
+    elif pid == "C01":
+        from e1 import fam_misc as f
+        from e2.driver import e2_run
+        from e2.lemmas import c01
+        P.append(e1_part(pid, tier, f.c01_l1(), ["bitmodel", "ops_c04", "ops_c05", "ops_misc"],
+                         ["L1 jump codec: origin and destination fully symbolic below 2^31 (i32 offsets)"], "code addresses < 2^31", ["opcodes::RelativeJump::{from_to, calculate}"], only))
+        P.append(e2_run(pid, tier, [c01], only=only, flavours=("on",) if tier == "quick" else ("on", "off"),
+                        assumptions=["L3: one step of the real fetch_and_run per control opcode from an arbitrary state, against the structural small-step semantics (Nop Jump JumpIf JumpIfNot CaseOf Call Ret Do Loop Break InitLocal Store LoadNil LoadI64)",
+                                     "L2: then / else / loop / repeat / break of the real compiler on an arbitrary compile state whose pending flows are the ones the word expects (<= 2 pending breaks); placeholders are the opcodes the opening words emit",
+                                     "the induction over nested constructs (L1+L2+L3 => every program of the grammar), literals/lexing, case value conventions, recursion depth and output are outside the machine-checked part"],
+                        bounds="code addresses < 2^31; <= 2 pending breaks per closing word; no bound on stack depths"))
+    elif pid == "C12":
+        from e1 import fam_misc as f
+        P.append(e1_part(pid, tier, f.c12_index(), ["bitmodel", "ops_c04", "ops_c05", "ops_misc"],
+                         ["index arithmetic of nth / slice: every isize index, lengths <= 2^40, against the sequence model (negative = from the end, clamping, None when out of range), never a panic"],
+                         "len <= 2^40", ["state::relative_index", "state::slicing_index"], only))
+    elif pid == "C08":
+        from e1 import fam_misc as f
+        from e2.driver import e2_run
+        from e2.lemmas import c08
+        P.append(e1_part(pid, tier, f.c08_kernels(), ["bitmodel", "ops_c04", "ops_c05", "ops_misc"],
+                         ["bit kernels and Bitstr range arithmetic with full-width symbolic usize arguments on fixed small values"], "values <= 3 bytes",
+                         ["bitstr::{cut_bits, bit_mask, upper_bound_index}", "Bitstr::{read, peek, split_at, seek, substr, to_int, to_uint}", "fmt_flags::FmtFlags"], only))
+        c08.TIER = tier
+        P.append(e2_run(pid, tier, [c08], only=only, flavours=("on", "off"),
+                        assumptions=["per-word panic freedom: every non-immediate native word the executor can run, from an arbitrary state whose top three cells are arbitrary (any variant, tagged or not, full-width payloads), in both overflow-check flavours",
+                                     "the evidence lists the words covered and the words not covered with the reason; the claim is exactly the covered list (the property's quantifier over all source texts and call sequences is not decidable here)",
+                                     "Bitstr internals are summarised (E1 covers them); formatting produces opaque strings"],
+                        bounds="3 symbolic operand cells; path budget per word (exceeded => not covered)"))
     elif pid == "E1MISC":
         from e1 import fam_misc as f
         P.append(e1_part(pid, tier, f.c01_l1() + f.c12_index() + f.c08_kernels(), ["bitmodel", "ops_c04", "ops_c05", "ops_misc"], [], "", [], only))
@@ -47,10 +76,44 @@ def parts_for(pid, tier, only):
                                      "f64 `%` is modelled as C fmod derived from z3's IEEE remainder; f64::round as round-half-away; f64::min/max as IEEE minNum/maxNum",
                                      "shift counts outside 0..127 and comparisons on unordered (NaN) operands are unconstrained, as the property says"],
                         bounds="no bound on values or stack depth; words are loop-free"))
+    elif pid == "C02":
+        from e2.driver import e2_run
+        from e2.lemmas import c02
+        P.append(e2_run(pid, tier, [c02], only=only, flavours=("on",) if tier == "quick" else ("on", "off"),
+                        assumptions=["one-step induction: forward step (real fetch_and_run, recording on) from an arbitrary state, then the real rnext; pre-state restored exactly (ip/context, data stack, frames with locals, loops, vector-builder marks, heap, log)",
+                                     "pre-state invariant: the newest older log entry (if any) is a SetIp (every completed instruction logs SetIp last; this is itself an obligation of each arm)",
+                                     "native words run as NativeCall instructions; words outside the listed set, Resolve back-patching, dictionary changes and I/O are outside the claim",
+                                     "composition over histories of any length (induction) and replay determinism (steps are functions of the state) are paper arguments"],
+                        bounds="no bound on stack depths / log length (symbolic prefixes); rnext's pop loop unrolled up to 8 entries per instruction"))
+    elif pid == "C15":
+        from e2.driver import e2_run
+        from e2.lemmas import c15
+        P.append(e2_run(pid, tier, [c15], only=only, flavours=("on",) if tier == "quick" else ("on", "off"),
+                        assumptions=["relational one-step lemmas on the real fetch_and_run / next / run: the same arbitrary pre-state driven two ways must give the same result and the same machine state (data stack, frames, loops, marks, heap, context, meter)",
+                                     "recording off vs on for every opcode arm and the listed native words; next vs one VM step; run vs next on a last instruction",
+                                     "eval = compile + run from idle and run = iterated next over whole programs are paper compositions; last_error / location text excluded"],
+                        bounds="none (one-step lemmas over symbolic states)"))
+    elif pid == "C14":
+        from e2.driver import e2_run
+        from e2.lemmas import c14
+        P.append(e2_run(pid, tier, [c14], only=only, flavours=("on",) if tier == "quick" else ("on", "off"),
+                        assumptions=["limits are symbolic Option<usize>; lemmas: push_data / alloc_heap / one fetch_and_run step from an arbitrary state; MIR scan: no other code grows the data stack or the heap",
+                                     "an unknown native word reached through NativeCall is assumed not to touch the instruction meter or the limits",
+                                     "memory held inside cells (a one-item stack holding a huge vector) is outside the property"],
+                        bounds="none (one-step lemmas over symbolic states)"))
+    elif pid == "C13":
+        from e2.driver import e2_run
+        from e2.lemmas import c13
+        P.append(e2_run(pid, tier, [c13], only=only, flavours=("on",) if tier == "quick" else ("on", "off"),
+                        assumptions=["relational: each listed word is run twice from the same symbolic pre-state, once with a plain argument v and once with WithTag{tags: any map, value: v}; outcomes must agree for all inputs",
+                                     "tag nesting depth 1 (invariant, itself checked on Cell::with_tags: a wrapper never stores a wrapper)",
+                                     "persistent maps are modelled as an opaque base plus written entries; lookups in the base are a function of (base, key value)",
+                                     "words covered: the arithmetic/logic words, stack words, length nth get push insert remove slice reverse equal? nil? assert, and the cursor words with a tagged size argument; printing words and the tag words are excluded as the property says"],
+                        bounds="tag nesting 1; vectors indexed symbolically (no iteration), loop-free words"))
     elif pid == "C06":
         from e2.driver import e2_run
         from e2.lemmas import c06
-        P.append(e2_run(pid, tier, [c06], only=only,
+        P.append(e2_run(pid, tier, [c06], only=only, flavours=("on",) if tier == "quick" else ("on", "off"),
                         assumptions=["pre-state: any interpreter state (Eval/Compile mode) whose `input` variable holds a bit-string with start <= end <= 2^60, `offset` an integer inside it, `stash` a vector; every other part symbolic",
                                      "which number a field decodes to is C05's subject: Bitstr::to_uint/to_int/to_f32/to_f64 and eq_with are uninterpreted functions of (range, buffer) here",
                                      "nulbytestr / cstr / find / magic's mismatch scan loop over the content: not covered by this lemma set (stated in DESIGN.md)"],
